@@ -90,15 +90,20 @@ def kernel_attrs(repo, kcls, name, unit_weight):
     init = kcls.methods.get("__init__")
     if init is not None:
         # derived attributes:  self._sigma2 = self._sigma**2
-        for st in walk_no_nested(init.node):
-            if isinstance(st, ast.Assign) and len(st.targets) == 1 and is_self_attr(st.targets[0]):
-                t = "self." + st.targets[0].attr
-                if t in attr:
-                    continue
-                try:
-                    attr[t] = A.lift(A.Interp({}, attr).ev(st.value))
-                except A.Undecided:
-                    pass
+        # (to a fixpoint: an attribute may be derived from another derived one, in any statement order of the walk)
+        progress = True
+        while progress:
+            progress = False
+            for st in walk_no_nested(init.node):
+                if isinstance(st, ast.Assign) and len(st.targets) == 1 and is_self_attr(st.targets[0]):
+                    t = "self." + st.targets[0].attr
+                    if t in attr:
+                        continue
+                    try:
+                        attr[t] = A.lift(A.Interp({}, attr).ev(st.value))
+                        progress = True
+                    except A.Undecided:
+                        pass
     return attr
 
 
@@ -192,6 +197,13 @@ def check(repo, res, tier):
                 res.undecided("R-ALG(value)", kcls.methods.get("loss") or "%s.loss" % name, "loss", "cannot bring %s.loss into canonical form: %s" % (name, e))
         n += check_derivatives(repo, res, name)
     res.floor("kernel methods brought to canonical form", n, 15)
+    # the same identities on constructed kernels: real constructors (spread broadcasting, dtypes), concrete arrays, flat and single-column predictions
+    from ..rules import kernx as KX
+    res.rule("R-NUM(value)", "kernel built by its real constructor for every spread form: loss == minus the summed reference log-density at concrete points")
+    res.rule("R-NUM(d1)", "... diff_loss == first derivative of the reference loss (central differences of the reference)")
+    res.rule("R-NUM(d2)", "... diff2Loss == second derivative of the reference loss")
+    nk = KX.check_kernels(repo, res, KERNELS)
+    res.floor("constructed-kernel interpretations", nk, 200)
     _check_shape_inputs(repo, res)
     _check_dtype(repo, res)
     # residual is y - yhat (times w)
